@@ -245,6 +245,22 @@ pub fn deliveries(e: &[Ev]) -> Vec<Delivery> {
             target: 2,
         });
     }
+    // --- record: the order in which the judgements are recorded ------------
+    for perm in permutations(n) {
+        if perm.iter().enumerate().all(|(i, p)| i as u32 == *p) {
+            continue;
+        }
+        out.push(Delivery {
+            family: "record",
+            label:  format!("record{perm:?}"),
+            ev:     EvidenceSet {
+                n_vars:     3,
+                judgements: perm.iter().map(|i| (2usize, e[*i as usize].clone())).collect(),
+            },
+            sched:  Sched::natural(0),
+            target: 2,
+        });
+    }
     // Also under different hash keys (the base order itself moves).
     for k in 1..=2u64 {
         out.push(Delivery {
@@ -351,7 +367,7 @@ impl Check for C16Check {
         CheckInfo {
             id: "C16",
             level: "fault_enumeration",
-            rule: "case = one multiset E of distinct pieces from the 38-piece domain (Any, dynamic bytes, 4 free usages x 6 widths, 4 fixed-width usages, Mapping(a,b), Mapping(b,a), DynArray(a), DynArray(b), FixedArray(a)[3], FixedArray(b)[3], FixedArray(a)[5], a conflict): all 703 pairs and all 8436 triples (thorough: also all 73815 quadruples); each E is delivered to the real unifier in all |E|! fold orders (scripted at the fold scheduling point) and under 2 further hash keys, in every 2-way split over two equated variables, and in every 2-way split over two variables that become equal only in a later round; all deliveries must give the same normalised outcome. evaluations = unifier runs; non-trivial = a multiset whose deliveries folded at least two pieces (all of them); distinct = distinct multisets",
+            rule: "case = one multiset E of distinct pieces from the 38-piece domain (Any, dynamic bytes, 4 free usages x 6 widths, 4 fixed-width usages, Mapping(a,b), Mapping(b,a), DynArray(a), DynArray(b), FixedArray(a)[3], FixedArray(b)[3], FixedArray(a)[5], a conflict): all 703 pairs and all 8436 triples (thorough: also all 73815 quadruples); each E is delivered to the real unifier in all |E|! fold orders (scripted at the fold scheduling point), in all |E|! recording orders, under 2 further hash keys, in every 2-way split over two equated variables, and in every 2-way split over two variables that become equal only in a later round; all deliveries must give the same normalised outcome. evaluations = unifier runs; non-trivial = a multiset whose deliveries folded at least two pieces (all of them); distinct = distinct multisets",
             assumptions: &[
                 "merge is only observed through unification::unify, so the check cannot demand more than the system-level statement",
                 "outcomes are compared after erasing conflict payloads and replacing type variables by the class of the named variables a, b",
